@@ -173,6 +173,7 @@ impl World {
         if let Some(ids) = self.fresh.get("user-id") {
             for rec in ids {
                 let kid = u64::from_le_bytes(rec[..8].try_into().unwrap());
+                // (records are made in tracing epoch 0: the profiles that own this check never raise the level)
                 if self.auth.m.known_users.contains(&kid) && !registered.contains(&rec[8..].to_vec()) {
                     lost += 1;
                 }
@@ -437,6 +438,11 @@ impl World {
                         format!("refresh-accepted/operator={opname}"),
                         format!("keep={keep} bytes {}", bytes.len()),
                     );
+                    if m.tl != self.auth.m.tl {
+                        // (only reachable through a listed finding) the accepted key got a new
+                        // identifier and the one of the genuine key is forgotten
+                        self.auth.m.known_users.remove(&m.token());
+                    }
                     if self.wants(Class::Tracing) {
                         // an altered key was accepted: the key it produced must still satisfy C17
                         if let Ok(b) = usk.serialize() {
@@ -523,6 +529,14 @@ impl World {
             }
             (Ok(()), Ok(mut mu)) => {
                 mu.version = self.now as u32;
+                if m.tl != self.auth.m.tl {
+                    // identifier of another tracing level: the key got a new identifier and
+                    // the old one is no longer known
+                    self.stats.probe("refresh-across-tracing-levels");
+                    self.auth.m.known_users.remove(&m.token());
+                    mu.tl = self.auth.m.tl;
+                    self.auth.m.known_users.insert(mu.token());
+                }
                 if keep {
                     self.stats.probe("refresh-keep");
                     let lens: BTreeSet<usize> = mu.rights.values().map(|c| c.len()).collect();
@@ -553,6 +567,43 @@ impl World {
                 }
             }
             (Ok(()), Err(())) => {}
+        }
+    }
+
+    /// The master key is replaced by one of a higher tracing level: its serialized form gets one
+    /// more tracer (a copy of the last one, a well-formed (scalar, point) pair) and is read back,
+    /// as when the key comes from a deployment configured with another level. Keys issued before
+    /// get a new identifier at their next refresh.
+    pub fn ev_raise_tracing(&mut self) {
+        let Ok(b) = self.auth.msk.serialize() else { return };
+        let b = b.to_vec();
+        let Ok(w) = wire::parse_msk(&b) else {
+            self.stats.unobservable += 1;
+            return;
+        };
+        let n = w.tracers.len();
+        let Some((_, (p0, p1))) = w.spans.iter().find(|(k, _)| *k == "tracer-count") else { return };
+        if n == 0 || n >= 6 || p1 - p0 != 1 {
+            return;
+        }
+        let tracer_len = w.tracers[0].0.len() + w.tracers[0].1.len();
+        let end = p1 + n * tracer_len;
+        let mut nb = b[..*p0].to_vec();
+        nb.push((n + 1) as u8);
+        nb.extend_from_slice(&b[*p1..end]);
+        nb.extend_from_slice(&b[end - tracer_len..end]);
+        nb.extend_from_slice(&b[end..]);
+        match guard(|| MasterSecretKey::deserialize(&nb)) {
+            Ok(Ok(msk)) => {
+                self.auth.msk = msk;
+                self.auth.m.tl += 1;
+                self.stats.fault("tracing-level-raised");
+                self.outcomes.push("raise-tracing:ok".into());
+            }
+            _ => {
+                self.stats.unobservable += 1;
+                self.outcomes.push("raise-tracing:unreadable".into());
+            }
         }
     }
 
